@@ -287,14 +287,34 @@ def spec_C08(lines, ghost=None):
     return bad
 
 def spec_C15(lines, ghost=None):
-    return []
+    """One-off reactors (the systems made by `ReactCommands::once`, listed by the trace's closing `onces` line): the scripted
+    body runs at most once, and at the first quiescent point after it ran the reactor's entity is gone (the wrapper
+    despawns it in the same run)."""
+    onces = set()
+    for l in lines:
+        if l.startswith("onces"): onces = set(l.split()[1:])
+    bad = []; ran = {}; pending = []
+    for i, l in enumerate(lines):
+        t = tok(l)
+        if t[0] == "body" and len(t) > 1 and t[1] in onces:
+            ran[t[1]] = ran.get(t[1], 0) + 1
+            if ran[t[1]] == 2: bad.append("line %d: one-off reactor %s runs a second time" % (i, t[1]))
+            pending.append((i, t[1]))
+        elif t[0] == "qa":
+            sbits = t[2] if len(t) > 2 else ""
+            for (j, x) in pending:
+                k = int(x[1:])
+                if k < len(sbits) and sbits[k] == "1":
+                    bad.append("line %d: one-off reactor %s has run but still exists at the next quiescent point" % (j, x))
+            pending = []
+    return bad
 
 def spec_none(lines, ghost=None): return []
 
 SPECS = {
     "C01": [], "C02": [spec_C02], "C03": [spec_expect], "C04": [spec_C04, spec_expect], "C05": [spec_C05],
     "C06": [], "C07": [], "C08": [spec_C08], "C09": [spec_C02], "C10": [], "C11": [spec_C11, spec_C02],
-    "C12": [spec_C12, spec_expect], "C13": [spec_C13], "C14": [spec_C14], "C15": [], "C16": [spec_expect], "C17": [spec_C17],
+    "C12": [spec_C12, spec_expect], "C13": [spec_C13], "C14": [spec_C14], "C15": [spec_C15], "C16": [spec_expect], "C17": [spec_C17],
     "C18": [spec_C05, spec_C14],
 }
 
